@@ -14,13 +14,18 @@ def c08_children(cx, man, chk):
     # the model answers are aligned with the (re-ordered) requests; only the count matters here
     mans = [l.rstrip('\n').split('\t')[0] for l in open(model)]
     runs = []
+    limit = 600 if cx.tier == 'thorough' else 60      # clean-tree maximum is under 4 s per request
     for prof in ('debug', 'release'):
+        timeouts = 0
         for i, op in enumerate(reqs):
+            if timeouts >= 3:
+                break                                      # three non-terminating requests are replay enough
             t0 = time.time()
             try:
                 p = subprocess.run([chk.harness_bin(prof), 'drain2m'], input=(op + '\n').encode(), stdout=subprocess.PIPE, stderr=subprocess.PIPE,
-                                   timeout=(1800 if cx.tier == 'thorough' else 240))
+                                   timeout=limit)
             except subprocess.TimeoutExpired:
+                timeouts += 1
                 runs.append({'profile': prof, 'request': i, 'answer': 'timeout', 'expected': None, 'status': 'did not terminate', 'seconds': round(time.time() - t0, 2)})
                 cx.failing.append({'op': op, 'impl': 'timeout', 'spec': '=terminates', 'model': mans[i] if i < len(mans) else '', 'profile': prof,
                                    'kind': 'implementation-vs-specification', 'via': 'drain2m child process: did not terminate within the time limit'})
